@@ -5,9 +5,11 @@ random instants; numeric offsets enumerated; fractional seconds; zone designator
 variant; accessors and epoch views; a malformed / out-of-domain stream printed as class W
 (conformance of the transcription only).  The direct oracle uses Python's datetime (an independent
 proleptic Gregorian calendar) and never the Lean model."""
-import re, struct
+import os, re, struct
 from datetime import datetime, timedelta
-from lib.core import Case
+from lib.core import Case, GenError, write_if_changed, LEAN
+from lib import cbuild
+from gen import date_gen, math_gen, cfun
 
 ID = "C19"
 LEAN_MODULES = ["AwsVerif.Props.C19"]
@@ -16,10 +18,12 @@ HARNESS = dict(name="datetime", flavour="asan")
 C_ENV = {"TZ": "UTC"}
 TIMEOUT = 900
 NOT_PROVED = []
-TRUSTED = ["hand model lean/AwsVerif/Model/DateTime.lean (tied by this correspondence run only)",
+TRUSTED = ["translator gen/date_gen.py (+ gen/cfun.py, gen/math_gen.py): format strings, formatter dispatch, month compare chain, zone spellings, "
+           "reader constants and conversion units of date_time.c, and aws_timestamp_convert of clock.inl, regenerated into Lean on every run",
+           "hand model lean/AwsVerif/Model/DateTime.lean (tied by this correspondence run only)",
            "libc gmtime_r / timegm / strftime are MODELLED (proleptic Gregorian calendar, C locale, English names), "
            "not verified: tied by P agreement on the enumerated instants and by the Python datetime oracle"]
-ASSUMPTIONS = ["main run with TZ=UTC in the environment (mktime path of zone-less RFC 822 text then equals timegm); a second run with TZ=XXX-5:30 covers the zone-independent streams; local-time functions are outside the property",
+ASSUMPTIONS = ["main run with TZ=UTC in the environment (mktime path of zone-less RFC 822 text then equals timegm); further runs with TZ=XXX-5:30 and TZ=AAA8 cover the zone-independent streams (all UTC formatters, zone-carrying texts, accessors, epoch views); local-time functions are outside the property",
                "aws_date_time_init_epoch_secs is driven with doubles secs + ms/1000 (ms < 1000, |secs| < 2^53/1000); the double arithmetic itself is compared bit-for-bit in the harness, not proved",
                "as_nanos consistency is claimed where 10^9*secs + 10^6*ms < 2^64 (to 2554-07-21); beyond, aws_timestamp_convert saturates (documented)",
                "int arithmetic of the RFC 822 day field wraps (gcc/x86-64)"]
@@ -29,13 +33,31 @@ RULE = ("per instant t: rt (format then parse the produced text) for 3 formats x
         "fractions, zone-designator case variants; W stream: mutated / out-of-range / over-long texts, 2-digit years, short buffers; "
         "non-trivial = case contains at least one successful parse of a non-midnight instant or a non-zero offset")
 
+_state = {}
+
+
+def regen(ctx):
+    """generated layer: lean/AwsVerif/Gen/DateConsts.lean from date_time.c; Gen/Math.lean (aws_timestamp_convert) from clock.inl"""
+    repo, cfg = cbuild.REPO, cbuild.config_include()
+    try:
+        text, meta = date_gen.generate(repo, cfg)
+        lean_math, lean_disp, _ = math_gen.generate(repo, cfg)
+    except cfun.GenError as e:
+        raise GenError(str(e))
+    write_if_changed(os.path.join(LEAN, "AwsVerif", "Gen", "DateConsts.lean"), text)
+    write_if_changed(os.path.join(LEAN, "AwsVerif", "Gen", "Math.lean"), lean_math)
+    write_if_changed(os.path.join(LEAN, "AwsVerif", "Gen", "MathDispatch.lean"), lean_disp)
+    _state["meta"] = meta
+    _state["ctx"] = ctx
+
+
 MAXT = 253402300799
 EPOCH = datetime(1970, 1, 1)
 DAYS = ["Sun", "Mon", "Tue", "Wed", "Thu", "Fri", "Sat"]
 MONS = ["Jan", "Feb", "Mar", "Apr", "May", "Jun", "Jul", "Aug", "Sep", "Oct", "Nov", "Dec"]
 FMTS = ["rfc822", "iso8601", "iso8601_basic"]
 KNOWN_TAG = "[rfc822-date-only-unparseable]"
-TZ_ALT = "XXX-5:30"   # POSIX form, needs no tzdata: local time = UTC+05:30, no DST
+TZ_ALTS = ["XXX-5:30", "AAA8"]   # POSIX forms, need no tzdata: local time = UTC+05:30 and UTC-08:00, no DST
 
 
 def hx(s):
@@ -465,7 +487,20 @@ def chunk(ops, n, tags=None):
     return [Case(ops[i:i + n], dict(tags or {})) for i in range(0, len(ops), n)]
 
 
+P_DIFF_CONCRETE = True
+
+
+def _diff_policy():
+    """a model/implementation difference on a P line is a concrete violation only while the theorems about the
+    model check; when the Lean stage fails (e.g. a regenerated format string left the modelled subset) the model
+    is no longer the proved one: differences are then conformance drift and the oracle alone names failing inputs"""
+    global P_DIFF_CONCRETE
+    ctx = _state.get("ctx")
+    P_DIFF_CONCRETE = not (ctx is not None and ctx.lean_ok is False)
+
+
 def gen_cases(rng, tier):
+    _diff_policy()
     cases = []
     # known-finding probes (F8): the only cases in which the oracle insists on the RFC 822 date-only round trip
     cases.append(Case(["rt 0 rfc822 short rfc822"], {"known_probe": "F8"}))
@@ -495,60 +530,81 @@ def gen_cases(rng, tier):
     return cases
 
 
-def gen_cases_tz(rng, tier):
-    """second run under a non-UTC process time zone: only texts / calls whose meaning is zone-independent
-    (UTC formatters, zone-carrying texts, UTC accessors); the model has no time zone, so any dependence of
-    these paths on TZ (gmtime/localtime or timegm/mktime mixed up) shows as a difference"""
+def gen_cases_tz(rng, tier, tz):
+    """runs under a non-UTC process time zone: only texts / calls whose meaning is zone-independent (all six UTC
+    formatters x full/date-only x both parse modes, zone-carrying texts incl. zero offsets, UTC accessors, epoch
+    views); the model has no time zone, so any dependence of these paths on TZ (gmt_time/local_time or
+    timegm/mktime mixed up) shows as a difference"""
+    tags = lambda st: {"stream": st, "tz": tz}
     spec = special_instants()
-    rnd = [rng.randint(0, MAXT) for _ in range(1500 if tier == "quick" else 20000)]
-    inst = boundary_instants(sorted(rng.sample(range(1970, 10000), 60 if tier == "quick" else 1500)))
+    rnd = [rng.randint(0, MAXT) for _ in range(800 if tier == "quick" else 10000)]
+    inst = boundary_instants(sorted(rng.sample(range(1970, 10000), 40 if tier == "quick" else 800)))
     ops = []
-    for t in spec + inst + rnd:
+    for t in spec:
+        ops += rt_ops(t)                       # every formatter, full and date-only, explicit and auto-detect
+    for t in inst + rnd:
         ops += rt_ops(t, rng, full=False)
-    cases = chunk(ops, 60, {"stream": "tz-roundtrip", "tz": TZ_ALT})
-    cases += chunk(acc_ops(rng, spec + rnd[:1500]), 60, {"stream": "tz-acc", "tz": TZ_ALT})
-    cases += chunk(offset_ops(rng, "quick"), 50, {"stream": "tz-offset", "tz": TZ_ALT})
-    cases += chunk(designator_ops(rng, 3), 50, {"stream": "tz-designator", "tz": TZ_ALT})
+    cases = chunk(ops, 60, tags("tz-roundtrip"))
+    cases += chunk(acc_ops(rng, spec + rnd[:800]), 60, tags("tz-acc"))
+    zops = []
+    for t in [0, 43200, 86399, MAXT, MAXT - 43200] + rnd[:40]:
+        for sg in "+-":
+            zops.append(f"parse {hx(body(t, 'rfc') + sg + '0000')} {rng.choice(['rfc822', 'auto'])}")
+            zops.append(f"parse {hx(body(t, 'ext') + sg + '00:00')} {rng.choice(['iso8601', 'auto'])}")
+            zops.append(f"parse {hx(body(t, 'ext') + sg + '0000')} {rng.choice(['iso8601', 'auto'])}")
+            zops.append(f"parse {hx(body(t, 'basic') + sg + '0000')} {rng.choice(['iso8601_basic', 'auto'])}")
+        for z in ("Z", "z"):
+            zops.append(f"parse {hx(body(t, 'ext') + z)} auto")
+            zops.append(f"parse {hx(body(t, 'basic') + z)} iso8601_basic")
+        for z in ("GMT", "UT", "UTC", "Z", "gmt"):
+            zops.append(f"parse {hx(body(t, 'rfc') + z)} rfc822")
+        zops.append(f"parse {hx(py_fmt(t, 'iso8601', True))} auto")          # date-only: no zone text, still UTC
+        zops.append(f"parse {hx(py_fmt(t, 'iso8601_basic', True))} iso8601_basic")
+    cases += chunk(zops, 50, tags("tz-zero-offset"))
+    cases += chunk(offset_ops(rng, "quick"), 50, tags("tz-offset"))
+    cases += chunk(designator_ops(rng, 2), 50, tags("tz-designator"))
     return cases
 
 
-def _tz_stage(ctx, cases):
+def _tz_stage(ctx, cases, tz):
     global C_ENV
     from lib import core
     saved_env, saved_dist, orig_write = C_ENV, ctx.cov.get("distribution"), ctx.write_replay
+    short = re.sub(r"[^A-Za-z0-9]", "", tz)
 
     def write(name, obj):
         obj = dict(obj)
-        if "ops" in obj:            # core replays "ops" under C_ENV; these need TZ_ALT: see replay() below
+        if "ops" in obj:            # core replays "ops" under C_ENV; these need the zone: see replay() below
             obj["tz_ops"] = obj.pop("ops")
-        obj["process_tz"] = TZ_ALT
-        return orig_write("tz-" + name, obj)
+        obj["process_tz"] = tz
+        return orig_write(f"tz{short}-" + name, obj)
     try:
-        C_ENV = {"TZ": TZ_ALT}
+        C_ENV = {"TZ": tz}
         ctx.write_replay = write
         n0 = len(ctx.violations)
         core.correspondence_stage(ctx, cases)
         for k in range(n0, len(ctx.violations)):
             name, text, path, no_input = ctx.violations[k]
-            ctx.violations[k] = (name, f"[process TZ={TZ_ALT}] " + text, path, no_input)
-        ctx.notes.append(f"second correspondence run with TZ={TZ_ALT} on zone-independent streams")
+            ctx.violations[k] = (name, f"[process TZ={tz}] " + text, path, no_input)
+        ctx.notes.append(f"additional correspondence run with TZ={tz} on zone-independent streams ({len(cases)} cases)")
     finally:
         C_ENV = saved_env
         ctx.write_replay = orig_write
         if saved_dist is not None:
-            ctx.cov["distribution_tz_run"] = ctx.cov.get("distribution")
+            ctx.cov.setdefault("distribution_tz_runs", {})[tz] = ctx.cov.get("distribution")
             ctx.cov["distribution"] = saved_dist
 
 
 def extra_stages(ctx):
-    """second correspondence run with a non-UTC process time zone"""
-    _tz_stage(ctx, gen_cases_tz(ctx.rng, ctx.tier))
+    """further correspondence runs with non-UTC process time zones (east and west of UTC)"""
+    for tz in TZ_ALTS:
+        _tz_stage(ctx, gen_cases_tz(ctx.rng, ctx.tier, tz), tz)
 
 
 def replay(ctx, obj):
-    """replay files of the second run carry `tz_ops` (re-run under TZ_ALT)"""
+    """replay files of the zone runs carry `tz_ops` and `process_tz` (re-run under that zone)"""
     if "tz_ops" in obj:
-        _tz_stage(ctx, [Case(obj["tz_ops"], obj.get("tags"))])
+        _tz_stage(ctx, [Case(obj["tz_ops"], obj.get("tags"))], obj.get("process_tz") or TZ_ALTS[0])
     else:
         import json
         print("replay file carries no op list (it names the obligation that no longer checks):")
@@ -584,7 +640,9 @@ MANIFEST = dict(
     category="proof",
     design_ref="5.19",
     text=("Lean 4 theorems over a transcription of date_time.c (RFC 822 state machine, ISO 8601 reader, format dispatch, offset "
-          "application, epoch views, accessors) on top of a calendar model: civilFromDays is the inverse, by bounded search, of the "
+          "application, epoch views, accessors) whose format strings, formatter dispatch (which struct tm each case formats), month "
+          "compare chain, UTC zone spellings, year bases, zone-buffer sizes and aws_timestamp_convert (clock.inl) are REGENERATED from "
+          "/repo on every run and tied to the closed forms by bridge theorems (c19_gen_*), on top of a calendar model: civilFromDays is the inverse, by bounded search, of the "
           "closed-form day count and agrees with an independent recursive calendar for every day; format-then-parse returns the same "
           "instant (or its midnight for date-only text) for every second of 1970-9999, every parseable format and both parse modes; "
           "numeric offsets +-hh:mm / +-hhmm and Z/UT/UTC/GMT in any case are honoured; accessors equal the calendar's fields; "
@@ -596,5 +654,5 @@ MANIFEST = dict(
           "strftime are modelled (proleptic Gregorian, C locale), not verified: tied by P agreement on the enumerated instants. "
           "Local-time paths (mktime, %Z, localtime_r) and the double arithmetic of init_epoch_secs / as_epoch_secs are outside the "
           "theorems (the latter compared bit-for-bit in the run)."),
-    technique="Lean 4 calendar inverse by monotone search + digit print/parse lemmas composed per format + model/implementation differential run",
+    technique="Lean 4 calendar inverse by monotone search + digit print/parse lemmas composed per format + regenerated constants/tables with bridge theorems + model/implementation differential runs under three process time zones",
 )
